@@ -29,6 +29,11 @@ KShare == { <<0,0,10,10>>, <<0,1,10,10>>, <<1,0,10,10>>, <<0,0,10,11>>, <<0,1,10
 LShare == KShare \cup { <<0,0>>, <<0,0,10,0>>, <<>> , <<0,1,10,10,0,0>>}
 VShare == { [tag |-> 200, len |-> 33], [tag |-> 201, len |-> 40] }
 \* twin leaves (identical bytes under different parents) with few keys
+\* two prefixes leading to byte-identical hashed subtrees WITH an interior (extension, branch, two leaves):
+\* shared interior nodes have reference count 2 (C07: a failed call below them must leave the counts alone)
+KShare4 == { <<0,0,10,10>>, <<0,0,10,11>>, <<0,1,10,10>>, <<0,1,10,11>> }
+LShare4 == KShare4 \cup { <<0,0>>, <<>>, <<0,0,10,10,0,0>> }
+VOne33 == { [tag |-> 200, len |-> 33] }
 KTwin == { <<0,0,10,10>>, <<0,1,10,10>>, <<10,10>> }
 LTwin == KTwin \cup { <<0,0>>, <<>>, <<0,0,10,10,0,0>> }
 \* three keys whose trie is an extension over a branch, embedded in the root (all values short)
